@@ -370,6 +370,7 @@ pub fn world_cfg(id: &str, mode: Mode) -> Cfg {
         shallow_clone: false,
         clone_panics: 0,
         slot_consume: true,
+        dtor_unwrap: false,
         allow_consume: id == "C09",
         clone_reentrant: false,
         default_ctor: 0,
